@@ -13,7 +13,7 @@ FaChain(x) ==
      ELSE LET f == Min(nb) IN
        IF x[ls[f].from + 1] # GT
        THEN <<[rec |-> NoRec, okRec |-> FALSE, okEnd |-> FALSE, line |-> f, byte |-> ls[f].from,
-               len |-> Len(x) - ls[f].from, zone |-> FALSE, coords |-> FALSE,
+               len |-> Len(x) - ls[f].from, zone |-> FALSE, coords |-> FALSE, raw |-> <<>>,
                errs |-> {ErrD("invalid_start", {f}, x[ls[f].from + 1], 0, 0, {<<>>})}]>>
        ELSE LET hs == SetToSortSeq({k \in f..Len(ls) : ls[k].to > ls[k].from /\ x[ls[k].from + 1] = GT}, <)
                 rec(j) == LET k == hs[j]
@@ -24,6 +24,6 @@ FaChain(x) ==
                                        qual |-> <<>>],
                               okRec |-> TRUE, errs |-> {}, okEnd |-> FALSE,
                               line |-> k, byte |-> ls[k].from, len |-> endb - ls[k].from,
-                              zone |-> FALSE, coords |-> TRUE]
+                              zone |-> FALSE, coords |-> TRUE, raw |-> Sl(x, ls[k].from, endb)]
             IN [j \in 1..Len(hs) |-> rec(j)] \o <<EndElem(0, 0)>>
 =============================================================================
